@@ -189,14 +189,18 @@ func Explode(dstDir string, inputShard string) error {
 		}
 	}
 
-	// best effort rename shards.
+	// The input shard is gone, so try to install every shard even if one of
+	// them fails, but report the failures: a shard that is not renamed is
+	// removed again by the deferred clean-up and its repository is lost.
+	var renameErrs []error
 	for tmpFn, dstFn := range exploded {
 		if err := os.Rename(tmpFn, dstFn); err != nil {
 			log.Printf("explode: rename failed: %s", err)
+			renameErrs = append(renameErrs, err)
 		}
 	}
 
-	return nil
+	return errors.Join(renameErrs...)
 }
 
 type shardBuilderFunc func(ib *ShardBuilder)
